@@ -398,8 +398,11 @@ class BehavioralRTLIRTypeCheckVisitorL1( bir.BehavioralRTLIRNodeVisitor ):
           node.Type.obj = obj[ int( idx ) ]
           node._is_explicit = True
         else:
-          node._value = int( obj[ int( idx ) ] )
-          node._is_explicit = False if isinstance(node._value, int) else True
+          elem = obj[ int( idx ) ]
+          node._value = int( elem )
+          # an element of a list of Bits constants is explicitly sized; only a
+          # plain python int may be re-interpreted
+          node._is_explicit = not isinstance( elem, int )
       else:
         node._is_explicit = True
 
